@@ -61,7 +61,7 @@ def SS.element (s : SS) (idx : Nat) (pushChild : B → R B) : R SS :=
       pure { s with fields := s.fields.set idx c', seen := s.seen.set idx true, next := idx + 1 }
 
 /-- `UnionBuilder::serialize_variant`: bookkeeping for one row of variant `idx`; returns the variant's builder.
-`current_offset: Vec<i32>`: the next offset `co + 1` is a CHECKED addition (repo fix fe68100: beyond `i32::MAX` rows of
+`current_offset: Vec<i32>`: the next offset `co + 1` is a CHECKED addition (repo fix 217d612: beyond `i32::MAX` rows of
 one variant the push is an error, raised before `offsets` / `types` are touched). -/
 def serializeVariant (fs : BL) (types offs cur : List Int) (idx : Nat) : R (B × List Int × List Int × List Int) :=
   match fs.get? idx with
@@ -75,7 +75,7 @@ def serializeVariant (fs : BL) (types offs cur : List Int) (idx : Nat) : R (B ×
       else if idx > 127 then fail "out of range integral type conversion attempted"
       else .ok (c, types ++ [(idx : Int)], offs ++ [co], cur.set idx (co + 1))
 
-/-- the pinned `serialize_variant` (before fe68100): `self.current_offset[variant_index] += 1` on an `i32`, unchecked —
+/-- the pinned `serialize_variant` (before 217d612): `self.current_offset[variant_index] += 1` on an `i32`, unchecked —
 with overflow checks on it unwinds on the 2^31-th row of one variant (after `offsets` and `types` were pushed) -/
 def serializeVariantPinned (fs : BL) (types offs cur : List Int) (idx : Nat) : R (B × List Int × List Int × List Int) :=
   match fs.get? idx with
